@@ -22,7 +22,7 @@ func init() {
 	checks["C01"] = func(run *report.Run) error {
 		run.Rule = "route tables drawn from the template grammar (literals, {v}, {v:re}, {v}suffix, tail wildcard, :verb; Consumes/Produces/If/AllowedMethodsWithoutContentType), requests derived from a route's template then mutated (DESIGN §5); both routers; a case is non-trivial when some WebService root matched the URL; distinct = distinct (table, request) lines"
 		run.Trusted = []string{"Go regexp modelled by a derivative matcher (CurlyRouter) and by the closed form of DESIGN 4.2 (RouterJSR311)", "sort.Sort is insertion sort for n ≤ 12"}
-		run.Assumptions = []string{"templates inside the grammar of the quantifier (checked per table by the driver: Config.wfTemplates)", "If-conditions are pure functions of the request"}
+		run.Assumptions = []string{"templates inside the grammar of the quantifier and ids that identify (checked per table by the driver: Config.wfTemplates, Spec.idsDistinct, rootsRead)", "If-conditions are pure functions of the request"}
 		n := sizes(run, 150, 3000)
 		p := routing.PropSpec{ID: "C01", SpecKey: "C01", Proj: routing.ProjWhich, NeedWF: true}
 		if err := routing.CheckStreams(run, p, []routing.StreamSpec{
@@ -47,7 +47,7 @@ func init() {
 
 func routingMeta(run *report.Run) {
 	run.Trusted = []string{"Go regexp modelled by a derivative matcher (CurlyRouter) and by the closed form of DESIGN 4.2 (RouterJSR311)", "sort.Sort is insertion sort for n ≤ 12"}
-	run.Assumptions = []string{"templates inside the grammar of the quantifier (checked per table by the driver: Config.wfTemplates)", "If-conditions are pure functions of the request"}
+	run.Assumptions = []string{"templates inside the grammar of the quantifier and ids that identify (checked per table by the driver: Config.wfTemplates, Spec.idsDistinct, rootsRead)", "If-conditions are pure functions of the request"}
 }
 
 func init() {
